@@ -58,22 +58,26 @@ fn part_a(ctx: &Arc<Ctx>) {
 		for target in [None, Some(0u8), Some(1), Some(2)] {
 			for force in [false, true] {
 				for cont in ct::ALL_CONT {
-					cfgs.push((src_comp, target, force, cont));
+					cfgs.push((src_comp, target, force, cont, false));
+					if cont == Cont::Mbtiles {
+						cfgs.push((src_comp, target, force, cont, true));
+					}
 				}
 			}
 		}
 	}
 	let (ctxr, rtr, wpath, psr, cfgr): (&Ctx, _, _, _, _) = (ctx, &rt, work.0.clone(), &ps, &cfgs);
 	par_for(cfgs.len(), |i| {
-		let (src_comp, target, force, cont) = cfgr[i];
+		let (src_comp, target, force, cont, alt_format) = cfgr[i];
 		let out_comp = target.unwrap_or(src_comp);
-		// MBTiles accepts only uncompressed png/jpg/webp or gzipped pbf
-		let format = match (cont, out_comp) {
-			(Cont::Mbtiles, 0) => TileFormat::PNG,
-			(Cont::Mbtiles, 1) => TileFormat::PBF,
-			(Cont::Mbtiles, _) => return,
+		// MBTiles accepts only uncompressed png/jpg/webp or gzipped pbf: both formats are tried with every
+		// compression; a refusal by the writer is "not applicable", a conversion that reports success is judged
+		let format = match (cont, alt_format) {
+			(Cont::Mbtiles, false) => TileFormat::PNG,
+			(Cont::Mbtiles, true) => TileFormat::PBF,
 			_ => TileFormat::PBF,
 		};
+		let mb_legal = cont != Cont::Mbtiles || matches!((format, out_comp), (TileFormat::PNG, 0) | (TileFormat::PBF, 1));
 		let mut tiles = TileMap::new();
 		let mut decoded = TileMap::new();
 		for (j, (_, p)) in psr.iter().enumerate() {
@@ -86,8 +90,8 @@ fn part_a(ctx: &Arc<Ctx>) {
 		tj.set_string("name", "recompression \"test\" \u{00fc}").unwrap();
 		tj.set_string("description", "payload must survive").unwrap();
 		let src = MemSource::new("mem", tiles, format, ct::comp_from_id(src_comp)).with_tilejson(tj);
-		let label = format!("{} source {:?} -> target {:?} force={force}", cont.name(), ct::comp_from_id(src_comp), target.map(ct::comp_from_id));
-		let case = json!({"cont": cont, "src_comp": src_comp, "target": target, "force": force});
+		let label = format!("{} {} source {:?} -> target {:?} force={force}", cont.name(), ct::format_name(format), ct::comp_from_id(src_comp), target.map(ct::comp_from_id));
+		let case = json!({"cont": cont, "format": ct::format_name(format), "src_comp": src_comp, "target": target, "force": force});
 		let mut cp = TilesConverterParameters::new_default();
 		cp.tile_compression = target.map(ct::comp_from_id);
 		cp.force_recompress = force;
@@ -104,12 +108,17 @@ fn part_a(ctx: &Arc<Ctx>) {
 			Err(e) => {
 				if let Some(p) = e.strip_prefix("PANIC ") {
 					ctxr.violation(&format!("conversion panics at {}", panic_site(p)), &format!("{label}: {p}"), case);
+				} else if !mb_legal {
+					ctxr.outcome("mbtiles: writer refuses a (format, compression) pair it does not support (not applicable)");
 				} else {
 					ctxr.violation(&format!("conversion fails: {}", super::c01::norm_msg(&e)), &format!("{label}: {e}"), case);
 				}
 				return;
 			}
 		};
+		if !mb_legal {
+			ctxr.outcome("mbtiles: writer accepts a (format, compression) pair outside its documented ones (judged like any other)");
+		}
 		ctxr.trace(1);
 		// independent view of the output
 		match ct::independent_decode(cont, &w) {
